@@ -3,6 +3,7 @@ CONSTANTS
   Families = {"A", "B", "C1", "C2", "E"}
 INVARIANT CacheInDatainfo
 INVARIANT ConstantsHold
+INVARIANT EmittedConverts
 PROPERTY DriverOnlyIfAllowed
 PROPERTY ErrorLeavesNoTrace
 PROPERTY ValidIsServed
